@@ -213,3 +213,101 @@ def base_atoms(p):
         else:
             out.add(a)
     return out
+
+
+# ----------------------------------------------------------------------------- drawing harness
+ORI = "mipidsi::options::orientation::Orientation"
+ROTATION = "mipidsi::options::orientation::Rotation"
+OPTS = "mipidsi::options::ModelOptions"
+ROT_NAMES = ["Deg0", "Deg90", "Deg180", "Deg270"]
+
+
+def sym16(name):
+    from poly import sym_int
+    return sym_int(name, 16, False)
+
+
+class Geo:
+    """symbols of the display configuration and the oracle geometry for one orientation"""
+
+    def __init__(self, q, m):
+        self.q, self.m = q, m
+        self.w, self.h = sym16("*self.options.display_size.0"), sym16("*self.options.display_size.1")
+        self.ox, self.oy = sym16("*self.options.display_offset.0"), sym16("*self.options.display_offset.1")
+        self.W, self.H = sym16("<M>::FRAMEBUFFER_SIZE.0"), sym16("<M>::FRAMEBUFFER_SIZE.1")
+        self.MY = q in (2, 3)
+        self.MV = q in (1, 3)
+        self.MX = (q in (1, 2)) != m
+        self.lw, self.lh = (self.w, self.h) if q in (0, 2) else (self.h, self.w)
+
+    def i_init(self):
+        """facts guaranteed by Builder::init (C09) for every display that exists"""
+        return [self.w - 1, self.h - 1, self.W - self.w - self.ox, self.H - self.h - self.oy]
+
+    def panel(self, lx, ly):
+        """panel position of logical (lx, ly): rotate clockwise by q quarter turns, then mirror left-right"""
+        w, h = self.w, self.h
+        px, py = [(lx, ly), (w - 1 - ly, lx), (w - 1 - lx, h - 1 - ly), (ly, h - 1 - lx)][self.q]
+        if self.m:
+            px = w - 1 - px
+        return px, py
+
+    def decode(self, c, p):
+        """framebuffer cell a MIPI controller addresses for column c / page p under (MY, MX, MV)"""
+        X, Y = (p, c) if self.MV else (c, p)
+        if self.MX:
+            X = self.W - 1 - X
+        if self.MY:
+            Y = self.H - 1 - Y
+        return X, Y
+
+    def col_limit(self):
+        return self.H if self.MV else self.W
+
+    def row_limit(self):
+        return self.W if self.MV else self.H
+
+
+def display_init_mem(ex, F, rec, q, m):
+    """initial memory with `*self` a symbolic Display whose orientation is the concrete (q, m)"""
+    from values import BoolV
+    l1 = rec["body"]["locals"][1]["ty"]
+    dty = l1["ty"]
+    d = ex.expand_sym(SymV(dty, "*self"))
+    oi = struct_field_index(F, DISPLAY, "options")
+    opts = ex.expand_sym(d.fields[oi])
+    ri = struct_field_index(F, OPTS, "orientation")
+    rot = Agg("adt", ROTATION, enum_variant_index(F, ROTATION, ROT_NAMES[q]), [])
+    ori = Agg("adt", ORI, 0, [rot, BoolV(Poly.const(1 if m else 0))])
+    fs = list(opts.fields)
+    fs[ri] = ori
+    opts = Agg("adt", OPTS, 0, fs, opts.ty)
+    ds = list(d.fields)
+    ds[oi] = opts
+    ex.root_types[("O", "*self")] = dty
+    return {("O", "*self"): Agg("adt", DISPLAY, 0, ds, dty)}
+
+
+def ctor_order(R, F, adt, nargs, rule, cfg):
+    """field i of adt holds constructor argument order[i] (constructors store their arguments)"""
+    from poly import sym_int
+    ex = R.executor(F)
+    new = one(F.inherent_method(adt, "new"), adt + "::new")
+    args = [IntV(16, False, p=sym_int("p%d" % i, 16, False)) for i in range(nargs)]
+    r = run_pure(R, ex, new, rule, "%s|%s::new" % (cfg, adt.split("::")[-1]), args=args)
+    if r is None or not isinstance(r[0], Agg):
+        return None
+    order = []
+    for f in r[0].fields:
+        a = f.poly().is_atom()
+        if a is None:
+            return None
+        order.append(int(a[1][1:]))
+    return order
+
+
+def ctor_args(v, order):
+    out = [None] * len(order)
+    for i, f in enumerate(v.fields):
+        out[order[i]] = f.poly()
+    return out
